@@ -491,6 +491,29 @@ CHECKS["C15"]["rule"] += (" Plus two parsers side by side: A is given a caller s
                           "dropped, the caller overwrites its slice; B, fed in between (sizes up to 100 kB), must still show "
                           "exactly the bytes it was fed.")
 
+CHECKS["C02"]["rule"] += (" Plus skip histories (TestC02Skip): windows of 1-24 bytes and blocks of 2-20 bytes in a buffer that holds "
+                          "several of them, every third to fourth step a Parse(nil).")
+CHECKS["C16"]["rule"] += (" Plus TestC16Huge: the same histories on the largest accepted window sizes, with NoTrailingLiterals in "
+                          "half of the Parse calls (a fifth of the histories: in all of them) and hash tables of 2-8 slots in half of the cases.")
+CHECKS["C10"]["rule"] += (" Plus deep nesting (TestC10Deep): runs and short-period stretches of 100-270 bytes over two or three letters, "
+                          "up to 700 bytes (hundreds of groups open at once). Plus TestC10Huge: a run of 10-12.5 million bytes, optionally "
+                          "with a smaller byte behind it, sa/lcp written down directly and the groups known in closed form (ten million "
+                          "groups open at once; a fatal runtime error is attributed to the case marked as running).")
+CHECKS["C13"]["rule"] += (" (6) abandoned streams: H1 = 'P..P L' parsed in part (mostly ending with a NoTrailingLiterals call), after the "
+                          "Reset the same text with single bytes changed around the parse position and the original of the changed place "
+                          "repeated behind it; also with 2^8..3*2^16 (-1, 0, +1) further Reset(nil) calls in between on small tables "
+                          "(TestC13ManyResets); the enumeration (5) is repeated with H1 parsed under NoTrailingLiterals incl. tables of "
+                          "256-1024 slots.")
+CHECKS["C06"]["rule"] += (" Writers may fail for good from some call on (also with lz.ErrFullBuffer as their own error): the call has to "
+                          "return the writer's error; 100 000 writer calls within one call count as a spin. DecoderBuffer histories "
+                          "also start from a caller-supplied Data slice (capacity around BufferSize, or empty and not nil).")
+CHECKS["C18"]["rule"] += (" A quarter of the faulty-writer cases (half of the fault enumeration) use a writer that also has a Flush() "
+                          "method which does not remember errors; a tenth of the scripts end in an event that lasts for ever.")
+CHECKS["C07"]["rule"] += (" The large geometries include steady-state streams: 200-4 000 small blocks with matches at and just below the "
+                          "window distance, the reader keeping up.")
+CHECKS["C09"]["rule"] += (" The text is handed over as the front part of a larger buffer in three of four calls (behind it: the text "
+                          "again, its last byte repeated, zeros); sa/sainv operands of LCP are nil, exact, or slices of another length "
+                          "cut from one buffer.")
 CHECKS["C12"]["quick"]["tests"].append({"test": "TestC12Bracket", "checks": 8, "subchecks": 1})
 CHECKS["C12"]["thorough"]["tests"].append({"test": "TestC12Bracket", "checks": 60, "subchecks": 1, "once": True})
 CHECKS["C12"]["rule"] += (" Plus a suffix array of millions of entries with a handful of positions passed: 'W lo' 'W hi' followed by "
